@@ -107,7 +107,7 @@ theorem passes_spec (cands : List (Nat × K)) (thresh : Rat) (p : Nat) (h : pass
 /-- **Pivot policy, success case.**  The chosen candidate exists, is recorded, is nonzero and
 dominates `u *` every candidate (hence every multiplier is bounded by `1/u`). -/
 theorem pivotChoice_ok (j : Nat) (cands : List (Nat × K)) (u : Rat)
-    (hu0 : 0 < u) (hu1 : u ≤ 1) (usepr : Bool) (oldRow diagRow : Nat)
+    (hu0 : 0 ≤ u) (hu1 : u ≤ 1) (usepr : Bool) (oldRow diagRow : Nat)
     (h : (pivotChoice (R := Rat) j cands (fun p => u * p) usepr oldRow diagRow).info = 0) :
     ∃ c, cands[(pivotChoice (R := Rat) j cands (fun p => u * p) usepr oldRow diagRow).pos]? = some c ∧
       (pivotChoice (R := Rat) j cands (fun p => u * p) usepr oldRow diagRow).row = c.1 ∧
@@ -125,7 +125,7 @@ theorem pivotChoice_ok (j : Nat) (cands : List (Nat × K)) (u : Rat)
     have bound : ∀ (c : Nat × K), u * pivmax ≤ (Mag.abs1 c.2 : Rat) → ∀ c' ∈ cands, u * (Mag.abs1 c'.2 : Rat) ≤ (Mag.abs1 c.2 : Rat) := by
       intro c hc c' hc'
       calc u * (Mag.abs1 c'.2 : Rat) ≤ u * pivmax := by
-            apply mul_le_mul_of_nonneg_left (hmax c' hc') (le_of_lt hu0)
+            apply mul_le_mul_of_nonneg_left (hmax c' hc') hu0
         _ ≤ _ := hc
     -- reuse branch
     cases hold : (Option.filter (passes cands (u * pivmax)) (if usepr = true then findRow cands oldRow else none)) with
